@@ -377,7 +377,7 @@ def explore_shard(acc, shard):
         spellings = display_spellings(seed)
         tokens_of = dict(spellings)
         bpms_lists = ["0.000=120.000", "0.000=120.000,\n4.000=60.000", "0.000=90.000,\n4.000=180.000,\n8.000=135.5", "0.000=200,\n1.000=100,\n2.000=300",
-                      "0.000=150,\n16.000=150.000", "0.000=75,\n4.000=75,\n8.000=75.0"]
+                      "0.000=150,\n16.000=150.000", "0.000=75,\n4.000=75,\n8.000=75.0", "0.000=100,\n0.000=200,\n8.000=150"]
         vecs = [v for v in vectors(1)] if chartkind == "ssc" else [tuple([0] * len(PROPS))]
         states3 = ("absent", "empty", "value")
         case = None
@@ -392,7 +392,7 @@ def explore_shard(acc, shard):
                             sim_extra = {"OFFSET": sim_off, "BPMS": bl, "DISPLAYBPM": dtext}
                             chart_extra = {"OFFSET": ch_off, "DISPLAYBPM": decoy}
                             if chartkind == "ssc" and vec[0] == 2:
-                                chart_extra["BPMS"] = bl.replace("120", "121").replace("0.000=90", "0.000=91").replace("0.000=200", "0.000=201").replace("150", "151").replace("75", "76")
+                                chart_extra["BPMS"] = bl.replace("120", "121").replace("0.000=90", "0.000=91").replace("0.000=200", "0.000=201").replace("150", "151").replace("75", "76").replace("=100", "=101")
                             for swap in (False, True):
                                 if swap:
                                     se = dict(sim_extra, DISPLAYBPM=decoy)
